@@ -11,6 +11,34 @@ ASSUME PrintT(<<"STR_ALPHABET", ToJson(StrAlphabet)>>)
 ASSUME PrintT(<<"KV_ALPHABET", ToJson(KvAlphabet)>>)
 ASSUME PrintT(<<"DELIMS", ToJson(Delims)>>)
 ASSUME PrintT(<<"BASES", ToJson(Bases)>>)
+\* C22: byte values for binary inputs (NUL, control, space, %, +, /, =, digits/letters, DEL, 0x80, 0xC3 0xA9 = e-acute, 0xFF, LZ4 magic)
+ByteAlphabet == <<0, 10, 32, 37, 43, 47, 61, 48, 65, 97, 122, 127, 128, 195, 169, 255, 4, 34, 77, 24>>
+\* text code points for percent / punycode / charset inputs
+TextAlphabet == <<97, 90, 48, 32, 37, 38, 43, 47, 63, 35, 60, 126, 45, 46, 233, 223, 8364, 128512, 1103, 20013, 127>>
+PercentSets == <<"NON_ALPHANUMERIC", "CONTROLS", "FRAGMENT", "QUERY", "SPECIAL", "PATH", "USERINFO", "COMPONENT", "WWW_FORM_URLENCODED">>
+\* C23: algorithm |-> <<key bytes, iv bytes>> as documented by `encrypt`
+Ciphers == [ a \in {"AES-256-CFB", "AES-192-CFB", "AES-128-CFB", "AES-256-OFB", "AES-192-OFB", "AES-128-OFB", "AES-128-SIV", "AES-256-SIV",
+                     "AES-256-CTR", "AES-192-CTR", "AES-128-CTR", "AES-256-CTR-LE", "AES-192-CTR-LE", "AES-128-CTR-LE",
+                     "AES-256-CTR-BE", "AES-192-CTR-BE", "AES-128-CTR-BE",
+                     "AES-256-CBC-PKCS7", "AES-192-CBC-PKCS7", "AES-128-CBC-PKCS7", "AES-256-CBC-ANSIX923", "AES-192-CBC-ANSIX923", "AES-128-CBC-ANSIX923",
+                     "AES-256-CBC-ISO7816", "AES-192-CBC-ISO7816", "AES-128-CBC-ISO7816", "AES-256-CBC-ISO10126", "AES-192-CBC-ISO10126", "AES-128-CBC-ISO10126",
+                     "CHACHA20-POLY1305", "XCHACHA20-POLY1305", "XSALSA20-POLY1305"} |->
+             IF a = "AES-256-SIV" THEN <<64, 16>> ELSE IF a = "AES-128-SIV" THEN <<32, 16>>
+             ELSE IF a = "CHACHA20-POLY1305" THEN <<32, 12>> ELSE IF a \in {"XCHACHA20-POLY1305", "XSALSA20-POLY1305"} THEN <<32, 24>>
+             ELSE IF a \in {"AES-256-CFB", "AES-256-OFB", "AES-256-CTR", "AES-256-CTR-LE", "AES-256-CTR-BE", "AES-256-CBC-PKCS7", "AES-256-CBC-ANSIX923",
+                            "AES-256-CBC-ISO7816", "AES-256-CBC-ISO10126"} THEN <<32, 16>>
+             ELSE IF a \in {"AES-192-CFB", "AES-192-OFB", "AES-192-CTR", "AES-192-CTR-LE", "AES-192-CTR-BE", "AES-192-CBC-PKCS7", "AES-192-CBC-ANSIX923",
+                            "AES-192-CBC-ISO7816", "AES-192-CBC-ISO10126"} THEN <<24, 16>>
+             ELSE <<16, 16>> ]
+IpModes == [m \in {"aes128", "pfx"} |-> IF m = "aes128" THEN 16 ELSE 32]
+\* C21: code points for JSON strings and keys (quote, backslash, slash, controls incl. NUL, DEL, U+2028, BMP, astral)
+JsonAlphabet == <<97, 34, 92, 47, 0, 8, 10, 13, 31, 127, 8232, 233, 65533, 128512, 32, 123, 91, 44, 58>>
+ASSUME PrintT(<<"BYTE_ALPHABET", ToJson(ByteAlphabet)>>)
+ASSUME PrintT(<<"TEXT_ALPHABET", ToJson(TextAlphabet)>>)
+ASSUME PrintT(<<"PERCENT_SETS", ToJson(PercentSets)>>)
+ASSUME PrintT(<<"CIPHERS", ToJson(Ciphers)>>)
+ASSUME PrintT(<<"IP_MODES", ToJson(IpModes)>>)
+ASSUME PrintT(<<"JSON_ALPHABET", ToJson(JsonAlphabet)>>)
 VARIABLE dummy
 Init == dummy = 0
 Next == UNCHANGED dummy
